@@ -56,8 +56,12 @@ def one_case(job):
     def save_probe(s, r):
         s.send(["savejson"])
 
-    setup = stories.setup_ops(story) + [["bind", "__ext", "e", True, None], ["observe_dummy"]]
-    setup = [op for op in setup if op[0] != "observe_dummy"]
+    exts = story["meta"].get("externals") or []
+    setup = stories.setup_ops(story) + [["bind", "__ext", "e", True, None]]
+    setup += [["bind", e["name"], e["name"], True, ({"arg": 0} if e.get("arity", 0) else {"i": 3})] for e in exts]
+    invalid = list(INVALID)
+    # a second, rejected bind of a function the story really calls (other handler, other safety flag)
+    invalid += [["bind", e["name"], "intruder", False, {"i": 99}] for e in exts] * 3
     g = story["meta"].get("globals") or []
     if g:
         setup.append(["observe", g[0], "o1"])
@@ -80,7 +84,7 @@ def one_case(job):
     marks = [False] * len(base_ops)
     k = min(len(positions), 4 + len(base_ops) // 10)
     for pos in sorted(rng.sample(positions, k), reverse=True):
-        bad = rng.choice(INVALID)
+        bad = rng.choice(invalid)
         # `cont` is an invalid call exactly where the story cannot continue
         if pos > 0 and base_ops[pos - 1] == ["can"] and base_res[pos - 1].get("v") is False and rng.random() < 0.5:
             bad = ["cont"]
@@ -132,7 +136,8 @@ def run(ctx):
     quick = ctx.tier == "quick"
     pool = stories.corpus_pool(ctx)
     for prof, n in (("core", 25 if quick else 400), ("observers", 10 if quick else 200),
-                    ("functions", 10 if quick else 200), ("flows", 6 if quick else 100)):
+                    ("functions", 10 if quick else 200), ("flows", 6 if quick else 100),
+                    ("externals", 15 if quick else 300)):
         pool += stories.generated_pool(ctx, prof, n)
     walks = 1 if quick else 3
     jobs = []
